@@ -46,6 +46,7 @@ def run(F, rep, tier):
     c04.annotation_purity(F, rep, "ANNOTATION-PERMISSIVE")
     unknown_is_deferred(F, rep)
     erased_return_type(F, rep)
+    checker_annotation_blind(F, rep)
 
 
 def no_type_flow(F, rep):
@@ -300,3 +301,33 @@ def erased_return_type(F, rep):
            "the probe for a return type after `->` runs in the surrounding newline mode: inside ( ), [ ], call arguments or a blob "
            "literal the first token of the body on the next line is taken for the return type, so erasing `-> A` from "
            "`(fn x: int -> A⏎ A { a: x }⏎end)` is a syntax error while the same lambda outside brackets is fine", line_of(n))
+
+
+def checker_annotation_blind(F, rep):
+    """the type checker may *resolve* an annotation (inner_resolve_type turns Implied into a fresh unknown, anything else
+    into the type it denotes) but must not take different paths depending on whether an annotation is there: any other
+    pattern match over a resolver Type makes annotated and erased programs check differently"""
+    T = NR + "Type"
+    allowed_methods = {"is_void": "a declared `-> void`/no return type is the same node with and without other annotations",
+                       "span": "position for messages", "iter": "iteration over a list of types", "enumerate": "", "map": "", "collect": ""}
+    n = 0
+    bad = []
+    for fn in F.fns_in("sylt_compiler::typechecker::"):
+        if last(fn["_path"]) in ("inner_resolve_type",):
+            continue
+        for x in nodes(fn_body(fn)):
+            if x.get("k") == "Match" and T in (x.get("scrut_ty") or ""):
+                bad.append((last(fn["_path"], 2), "match", line_of(x)))
+            elif x.get("k") == "LetCond" and T in (peel(x["init"]).get("ty") or ""):
+                bad.append((last(fn["_path"], 2), "if let", line_of(x)))
+            elif x.get("k") == "MethodCall" and T in (x.get("recv_ty") or ""):
+                n += 1
+                if x["m"] not in allowed_methods:
+                    bad.append((last(fn["_path"], 2), "." + x["m"] + "()", line_of(x)))
+    rep.ob("ANNOTATION-INERT", "typechecker|annotation-only-resolved", not bad,
+           "outside inner_resolve_type the checker never branches on the form of an annotation (%d neutral uses: is_void / span / iteration)" % n
+           if not bad else
+           "the checker inspects an annotation outside inner_resolve_type (%s): what it does then depends on whether the annotation is "
+           "written, e.g. a recursive `f: fn int -> int : pu n: int -> int do .. f(n - 1) end` is checked against the weaker "
+           "annotation instead of the literal's own signature" % "; ".join("%s %s" % (a, b) for a, b, _ in bad),
+           bad[0][2] if bad else None, sites=n)
